@@ -7,6 +7,10 @@ import (
 	"sort"
 	"strconv"
 	"sync"
+	"sync/atomic"
+	"time"
+
+	"github.com/bilibili/gengine/context"
 )
 
 // Values and host objects of the evaluator scenarios (C01 C02 C03 C09 C15 C20).
@@ -185,6 +189,16 @@ type HostS struct {
 func (s *HostS) Echo32(x int32) int32 { return x }
 func (s *HostS) AddI64(x int64) int64 { return s.I64 + x }
 
+// Note records an observable event (used inside conc blocks); curHost is the case being run.
+func (s *HostS) Note(x int64) {
+	if curHost != nil {
+		time.Sleep(150 * time.Microsecond)
+		curHost.rec("note", x)
+	}
+}
+
+var curHost *hostEnv
+
 var hostFields = []string{"I", "I8", "I16", "I32", "I64", "U", "U8", "U16", "U32", "U64", "F32", "F64", "Str", "B"}
 
 func fieldKind(f string) string {
@@ -233,6 +247,27 @@ type hostEnv struct {
 	objs  map[string]interface{} // what is passed to dc.Add
 	mu    sync.Mutex
 	trace []traceEv
+	dc    *context.DataContext
+	// concurrent-execution probe (C15): tick() hands out 1,2,3,…; sync() waits for syncN arrivals
+	tickN   int64
+	syncN   int
+	syncArr int
+	syncCh  chan struct{}
+}
+
+// inj(): the host injects the name `late` while a rule is running
+func (h *hostEnv) inject() {
+	h.mu.Lock()
+	defer h.mu.Unlock()
+	if _, ok := h.objs["late"]; ok {
+		return
+	}
+	v := JVal{"int64", "100"}
+	h.specs = append(h.specs, ObjSpec{Name: "late", Type: "val", Val: &v})
+	h.objs["late"] = int64(100)
+	if h.dc != nil {
+		h.dc.Add("late", int64(100))
+	}
 }
 
 func (h *hostEnv) rec(fn string, args ...interface{}) {
@@ -252,6 +287,26 @@ func (h *hostEnv) funcValue(id string) interface{} {
 		return func(x int64) { h.rec("obs", x) }
 	case "obsS":
 		return func(s string) { h.rec("obsS", s) }
+	case "obsC":
+		return func(x int64) { time.Sleep(150 * time.Microsecond); h.rec("obsC", x) }
+	case "inj":
+		return func() { h.inject() }
+	case "tick":
+		return func() int64 { return atomic.AddInt64(&h.tickN, 1) }
+	case "sync":
+		return func() {
+			h.mu.Lock()
+			h.syncArr++
+			if h.syncArr == h.syncN {
+				close(h.syncCh)
+			}
+			ch := h.syncCh
+			h.mu.Unlock()
+			select {
+			case <-ch:
+			case <-time.After(2 * time.Second):
+			}
+		}
 	case "cat":
 		return func(a, b string) string { return a + b }
 	case "boom":
@@ -464,7 +519,7 @@ func genHostEnv(r *rng) *hostEnv {
 	add(ObjSpec{Name: "AU", Type: "slice", Ptr: true, ElemK: "uint8", Elems: els("uint8", 2)})
 	add(ObjSpec{Name: "ARR", Type: "slice", Ptr: true, IsArray: true, ElemK: "int16", Elems: els("int16", 3)})
 	add(ObjSpec{Name: "AS", Type: "slice", Ptr: false, ElemK: "string", Elems: els("string", 2)})
-	for _, f := range []string{"obs", "obsS", "cat", "boom", "neg", "sum3"} {
+	for _, f := range []string{"obs", "obsS", "cat", "boom", "neg", "sum3", "obsC", "inj"} {
 		add(ObjSpec{Name: f, Type: "func", Func: f})
 	}
 	for _, k := range append(append([]string{}, numKinds...), "string", "bool") {
